@@ -4,7 +4,7 @@
    ProofsB.v); they are discharged for AnyUInt and u64 in ProofsC.v, and the
    conclusions have the same shape as the hypotheses, so the laws nest. *)
 From PV Require Import Lib.Base Cbor.Item Cbor.Enc Cbor.Dec Cbor.Api Cbor.Skip.
-From PV Require Import C03.Model C03.ProofsA C03.ProofsB C03.ProofsC.
+From PV Require Import C03.Model C03.ProofsA C03.ProofsB C03.ProofsC C03.ProofsD.
 Open Scope Z_scope.
 
 (* ---- AnyUInt (the length-preserving unsigned integer), after the `fix:` commit ---- *)
@@ -50,6 +50,26 @@ Proof. intros. reflexivity. Qed.
 (* ---- AnyCbor ---- *)
 Theorem anycbor_reencode_exact : forall bs a r, dec_anycbor bs = DOk (a, r) -> enc_anycbor a ++ r = bs.
 Proof. exact anycbor_exact. Qed.
+
+(* a decoded AnyCbor value: decoding its encoding yields the same value (Decoder::skip, transcribed in
+   Cbor/Skip.v, depends only on the bytes it consumes) *)
+Theorem anycbor_dec_enc_decoded : forall bs a r r',
+  dec_anycbor bs = DOk (a, r) -> dec_anycbor (enc_anycbor a ++ r') = DOk (a, r').
+Proof. exact anycbor_roundtrip_decoded. Qed.
+
+(* an AnyCbor holding any well-formed item round-trips; and AnyCbor accepts, and keeps the bytes of, exactly
+   one item wherever the item decoder of the CBOR core does (Cbor/SkipLaws.v: skip_item) *)
+Theorem anycbor_dec_enc : forall i r,
+  wf_item i = true -> 2 * len (encode_item i) + 2 < u64_max ->
+  dec_anycbor (enc_anycbor (encode_item i) ++ r) = DOk (encode_item i, r).
+Proof. exact anycbor_roundtrip_item. Qed.
+
+Theorem anycbor_agrees_with_core : forall bs i r,
+  decode bs = DOk (i, r) -> 2 * len bs + 2 < u64_max -> dec_anycbor bs = DOk (encode_item i, r).
+Proof. exact anycbor_of_decode. Qed.
+
+Theorem emptymap_dec_enc : forall r, dec_emptymap (enc_emptymap tt ++ r) = DOk (tt, r).
+Proof. exact emptymap_roundtrip. Qed.
 
 (* ---- MaybeIndefArray / KeyValuePairs (= NonEmptyKeyValuePairs) ---- *)
 Theorem mia_dec_enc : forall (T : Type) (dec : decoder T) (enc : T -> list Z) (P : T -> Prop) m r,
@@ -139,14 +159,16 @@ Theorem payload_specs_inhabited :
   not_nullish enc_anyuint anyuint_wf /\
   roundtrips dec_u64 enc_u64 u64_ok /\ starts_ok enc_u64 u64_ok /\ consumes dec_u64 /\ local dec_u64.
 Proof.
-  repeat split; [apply anyuint_roundtrips|apply anyuint_is_exact|apply anyuint_starts_ok|apply anyuint_consumes
-    |apply anyuint_local|apply anyuint_not_nullish|apply u64_roundtrips|apply u64_starts_ok|apply u64_consumes|apply u64_local].
+  split; [apply anyuint_roundtrips|]. split; [apply anyuint_is_exact|]. split; [apply anyuint_starts_ok|].
+  split; [apply anyuint_consumes|]. split; [apply anyuint_local|]. split; [apply anyuint_not_nullish|].
+  split; [apply u64_roundtrips|]. split; [apply u64_starts_ok|]. split; [apply u64_consumes|apply u64_local].
 Qed.
 
 (* non-vacuity / nesting example: KeyValuePairs<AnyUInt, MaybeIndefArray<AnyUInt>> with a non-minimal integer,
    an indefinite inner array and an indefinite outer map is reproduced byte for byte *)
 Example nested_exact_example :
   let bs := [191; 24; 5; 159; 25; 0; 7; 255; 255] in
-  exists m, dec_kvp dec_anyuint (dec_mia dec_anyuint) bs = DOk (m, []) /\
-            enc_kvp enc_anyuint (enc_mia enc_anyuint) m = bs.
-Proof. eexists. split; vm_compute; reflexivity. Qed.
+  let m := KIndef [(AU8 5, MIndef [AU16 7])] in
+  dec_kvp dec_anyuint (dec_mia dec_anyuint) bs = DOk (m, []) /\
+  enc_kvp enc_anyuint (enc_mia enc_anyuint) m = bs.
+Proof. split; vm_compute; reflexivity. Qed.
